@@ -184,7 +184,8 @@ CHECKS = {
              "invocations with the real macro and evaluating them over their whole argument domain unordered, ordered, and next to a literal Rust match compiled by rustc: model, spec and "
              "implementation must agree. "
              "Runtime half: which matchers the runtime consults for a call and when it collects diagnostics (theorems C06_runtime_consults_like_a_match, C06_diagnostics_only_after_the_decision, C06_ordered_call_consults_one_matcher about Model/Run.v matcher_trace), tied by logging every matcher invocation of the real runtime (event callm). "
-             "`!=` is PartialEq::ne, user code that need not be the negation of eq: spec and model compare through vcmp, the harness struct S overrides ne.",
+             "`!=` is PartialEq::ne, user code that need not be the negation of eq: spec and model compare through vcmp, the harness struct S overrides ne. "
+             "The generated matcher must run no user Debug code while it only decides: 0 runs of a counting Debug impl during the unordered evaluations of every program.",
         design_ref="DESIGN.md section 7, C06",
         technique="Coq proof over an executable macro model (compile = rust_match) + generated-program co-execution with rustc's own match as oracle"),
     "C15": dict(
